@@ -69,6 +69,7 @@ def _per_work_function(fn: FuncInfo) -> bool:
 
 def run(ch: Checker) -> None:
     prog = ch.prog
+    ch.rule('C05.12', 'nobody sets SO_LINGER on a socket (expected 0 sites): close() with a linger time blocks the worker\'s only thread', 1)
     ch.rule('C05.1', 'containment: every Work lifecycle call on a work object (overridable methods of Work called from the executor) and every selector '
                      'register/modify/unregister in a per-work function is enclosed, in its own function or in every caller chain up to the '
                      '`while True` of Threadless._run_forever, by handlers that cover what it can raise (Exception for work code; KeyError/ValueError/OSError '
@@ -264,8 +265,15 @@ def run(ch: Checker) -> None:
     # ---- C05.11 flag and stored header in step
     content_length_flag_check(ch, 'C05.11')
 
+    # ---- C05.13 (shared)
+    ch.import_rules('C16', {'C16.3': 'C05.13'}, 'the web server feeds frame.parse() its own remainder until it is empty: a parse that can return its input unconsumed spins the worker forever')
+
     # ---- C05.9 (shared)
     ch.import_rules('C10', {'C10.2': 'C05.9'}, 'descriptors of a torn-down work that stay registered make the next connection with the same numbers unpollable')
+
+    # ---- C05.12 no SO_LINGER
+    from .common import no_linger_check
+    no_linger_check(ch, 'C05.12')
 
     # ---- C05.8 who may close
     from .common import who_may_close_check
